@@ -274,6 +274,18 @@ Proof.
   repeat split; vm_compute; reflexivity.
 Qed.
 
+(* the scope of a container is not recoverable from a one-line description once the sentence is conjugated: inside has_item,
+   has_entry "a" (any_of [equal_to 1; is_integer])  and  any_of [has_entry "a" (equal_to 1); is_integer]  both read
+   `has entry "a" that is equal to 1 or is an integer`; the item 5 has no entry "a" but is an integer *)
+Lemma faithful_refuted_container_scope : exists m1 m2 v,
+  describe not_of_source comp_of_source m1 = describe not_of_source comp_of_source m2 /\ accepts m1 v = true /\ accepts m2 v = false.
+Proof.
+  exists (HasItem (AnyOf [HasEntry [VStr [97%N]] (Some (EqualTo (VInt 1))); IsValueOfType TyInt None])),
+         (HasItem (HasEntry [VStr [97%N]] (Some (AnyOf [EqualTo (VInt 1); IsValueOfType TyInt None])))),
+         (VList [VInt 5]).
+  repeat split; vm_compute; reflexivity.
+Qed.
+
 (* ------------------------------------------------------------------ token-level faithfulness of flat expressions *)
 Lemma single_line_lits : forall rel ls, rel = TAnd \/ rel = TOr -> toks_lits (single_line_toks rel ls) = ls.
 Proof.
